@@ -8,7 +8,7 @@
       density (relative tolerance) — the model answers what the specification demands.
     @ draw <μ> <σ²> <k> <source>
         → some n=<k> consumed=<c> samples=<…> | none consumed=<c>
-    @ mv <N> <k> mean=<…> cov=<…> src=<…> names=<samples>,<features> via=matrix|tensor
+    @ mv <N> <k> mean=<…> cov=<…> src=<…> names=<samples>,<features> via=matrix|tensor [ty=rat]
         → some shape=<s>:<k>,<f>:<N> consumed=<c> values=<…> | none consumed=<c> | panic(explicit)
     @ new matrix <meanRows> <meanCols> <covRows> <covCols>     → ok | panic(explicit)
     @ new tensor <meanLen> <covRows> <covCols>                 → ok | err(<variant>)
@@ -20,6 +20,7 @@
 import EasyMl.Model.Gaussian
 import EasyMl.Spec.Gaussian
 import Driver.Parse
+import Driver.C08
 
 namespace Driver.C17
 open EasyMl EasyMl.Decomp EasyMl.Gaussian Driver
@@ -50,8 +51,16 @@ def answerDraw (mean variance : Fp) (k : Nat) (source : List Fp) : String :=
     | none => s!"none consumed={c}"
   both spec model
 
-def answerMv (n k : Nat) (mean cov source : List Fp) (names : List String) : String :=
-  let covariance : Matrix Fp := ⟨cov, n, n⟩
+section
+variable {α : Type} [Add α] [Sub α] [Mul α] [Div α] [Neg α] [Zero α] [One α] [RealFns α] [NumOrd α]
+
+def showVals (sh : α → String) (l : List α) : String :=
+  if l.isEmpty then "-" else ",".intercalate (l.map sh)
+
+/-- one multivariate draw at the element type `α` (`Fp`, or `Rat` for the singular covariances
+    that must be rejected before any transcendental function is needed) -/
+def answerMv (sh : α → String) (n k : Nat) (mean cov source : List α) (names : List String) : String :=
+  let covariance : Matrix α := ⟨cov, n, n⟩
   let sameNames := names.getD 0 "" == names.getD 1 ""
   let shape := s!"{names.getD 0 ""}:{k},{names.getD 1 ""}:{n}"
   let (r, rest) := mvDrawTensor mean covariance source k (names.getD 0 "") (names.getD 1 "")
@@ -61,16 +70,18 @@ def answerMv (n k : Nat) (mean cov source : List Fp) (names : List String) : Str
     | .ok none => s!"none consumed={used}"
     | .ok (some m) =>
       s!"some shape={names.getD 0 ""}:{m.rows},{names.getD 1 ""}:{m.columns} consumed={used} " ++
-      s!"values={showFps m.data}"
+      s!"values={showVals sh m.data}"
   let c := Spec.Gaussian.mvConsumed mean covariance source.length k sameNames
   let spec :=
     -- a tensor cannot have a dimension of length zero: a request for zero samples of a valid
     -- distribution is rejected with a panic (documented tensor invariant)
     if k = 0 ∧ !sameNames ∧ (cholesky covariance).isSome then "panic(explicit)"
     else match Spec.Gaussian.mvSpec mean covariance source k sameNames with
-      | some m => s!"some shape={shape} consumed={c} values={showFps m.data}"
+      | some m => s!"some shape={shape} consumed={c} values={showVals sh m.data}"
       | none => s!"none consumed={c}"
   both spec model
+
+end
 
 def step (s : State) (toks : List String) : State × String :=
   match toks with
@@ -83,12 +94,21 @@ def step (s : State) (toks : List String) : State × String :=
     | some mu, some var, some k, some src => (s, answerDraw mu var k src)
     | _, _, _, _ => (s, "bad-op")
   | "@" :: "mv" :: nS :: kS :: rest =>
-    match nS.toNat?, kS.toNat?, (optArg "mean" rest).bind parseFps, (optArg "cov" rest).bind parseFps,
-        (optArg "src" rest).bind parseFps with
-    | some n, some k, some mean, some cov, some src =>
-      if mean.length ≠ n ∨ cov.length ≠ n * n then (s, "bad-op")
-      else (s, answerMv n k mean cov src (parseNames ((optArg "names" rest).getD "samples,features")))
-    | _, _, _, _, _ => (s, "bad-op")
+    let names := parseNames ((optArg "names" rest).getD "samples,features")
+    if optArg "ty" rest = some "rat" then
+      let rats := fun (key : String) => (optArg key rest).bind fun t => (splitComma t).mapM Driver.C08.parseRat
+      match nS.toNat?, kS.toNat?, rats "mean", rats "cov", rats "src" with
+      | some n, some k, some mean, some cov, some src =>
+        if mean.length ≠ n ∨ cov.length ≠ n * n then (s, "bad-op")
+        else (s, answerMv showRat n k mean cov src names)
+      | _, _, _, _, _ => (s, "bad-op")
+    else
+      match nS.toNat?, kS.toNat?, (optArg "mean" rest).bind parseFps, (optArg "cov" rest).bind parseFps,
+          (optArg "src" rest).bind parseFps with
+      | some n, some k, some mean, some cov, some src =>
+        if mean.length ≠ n ∨ cov.length ≠ n * n then (s, "bad-op")
+        else (s, answerMv toString n k mean cov src names)
+      | _, _, _, _, _ => (s, "bad-op")
   | ["@", "new", "matrix", a, b, c, d] =>
     match a.toNat?, b.toNat?, c.toNat?, d.toNat? with
     | some mr, some mc, some cr, some cc =>
